@@ -610,6 +610,9 @@ func (w *c17World) oracleEvict(pod *corev1.Pod) {
 		if w.nodeBefore != "" {
 			// the job recorded its target node in an EARLIER reconcile; pod or reservation changed since
 			w.h.Fail("C17:evict-unsecured:same-node:node-check-stale", "Evict called while the reservation sits on the pod's own node %q (the same-node check was made in an earlier reconcile, job.Status.NodeName=%q)", pod.Spec.NodeName, w.nodeBefore)
+			if !w.anyFault {
+				w.h.Tag("note:node-check-stale-in-a-fault-free-history")
+			}
 		} else {
 			w.h.Fail("C17:evict-unsecured:same-node", "Evict called while the reservation sits on the pod's own node %q", pod.Spec.NodeName)
 		}
@@ -630,6 +633,9 @@ func (w *c17World) reconcile(faults uint64) {
 	w.faults, w.nw, w.acts = faults, 0, w.acts[:0]
 	w.evictFailed = false
 	w.nodeBefore = before.Status.NodeName
+	if _, c := utilGetCond(&before.Status, sev1alpha1.PodMigrationJobConditionReservationScheduled); c != nil && c.Status == sev1alpha1.PodMigrationJobConditionStatusTrue && w.nodeBefore == "" {
+		w.nodeBefore = "(ReservationScheduled=True)"
+	}
 	h.Op("rec %d", faults)
 	panicked := h.Guard(func() {
 		_, _ = w.r.Reconcile(context.TODO(), reconcile.Request{NamespacedName: types.NamespacedName{Name: c17JobName}})
@@ -668,6 +674,10 @@ func (w *c17World) reconcile(faults uint64) {
 	h.Tag(fmt.Sprintf("after-rec:phase=%s/status=%s/reason=%s", st.Phase, st.Status, st.Reason))
 	if faultHit {
 		h.Tag("rec:fault-hit")
+	}
+	if !w.direct && resvBefore == nil && refName0(before) != "" && !before.Spec.Paused && len(w.acts) == 0 &&
+		(before.Status.Phase == sev1alpha1.PodMigrationJobRunning) && string(st.Phase) == string(before.Status.Phase) {
+		h.Tag("note:referenced-reservation-missing-but-job-not-aborted(setReservationOrder-returns-NotFound-first)")
 	}
 
 	// ----- oracle, clauses 2 and 3 (clause 1 and 4 are evaluated inside the evictor) -----
@@ -920,6 +930,13 @@ func (w *c17World) envEvent(r *vRand, helpful bool) {
 		h.Op("restart %d", w.ctrlUID)
 		h.Tag("env:restart")
 	}
+}
+
+func refName0(j *sev1alpha1.PodMigrationJob) string {
+	if j.Spec.ReservationOptions != nil && j.Spec.ReservationOptions.ReservationRef != nil {
+		return j.Spec.ReservationOptions.ReservationRef.Name
+	}
+	return ""
 }
 
 // utilGetCond: local copy of the trivial lookup so that the generator does not depend on the code under test.
